@@ -108,6 +108,8 @@ package file
 //@ ensures forall it Ref :: itpos(it) == old(itpos(it)) && itlen(it) == old(itlen(it))
 //@ ensures no-reader-no-request: result1 == nil ==> loads == old(loads)
 //@ ensures declared-sizes-need-no-reader: sizesDeclared(s) ==> result1 == nil
+//@ ensures load-failure-is-returned: err == nil ==> loadFailed == old(loadFailed)
+//@ at return assert load-failure-is-returned: err == nil ==> loadFailed == old(loadFailed)
 //@ at return assert no-reader-no-request: result1 == nil && err == nil ==> loads == old(loads)
 //@ assigns file.shardNodeFile.metadata, file.shardNodeFile.unpackLk, loads, loadFailed
 
@@ -124,6 +126,9 @@ package file
 //@ ensures total-length: err == nil ==> s.len == startOf(s.shardNodeFile, nkids(s.shardNodeFile)) && s.offset < s.len
 //@ ensures eof-iff-past-end: err == io.EOF && result == nil ==> true
 //@ ensures position-unchanged: s.offset == old(s.offset)
+//@ ensures load-failure-is-returned: err == nil ==> loadFailed == old(loadFailed)
+//@ ensures reader-or-error: (err == nil ==> result != nil) && (err != nil ==> result == nil)
+//@ loop 0 invariant no-unreported-failure: loadFailed == old(loadFailed)
 
 // ---------------------------------------------------------------------------------------------
 // C05: constructing file nodes and readers, and seeking, request no block from storage.
@@ -137,3 +142,28 @@ package file
 //@ ensures err == nil && result != nil && fresh(result)
 //@ ensures no-load: loads == old(loads)
 //@ assigns nothing
+
+// ---------------------------------------------------------------------------------------------
+// C12 / C04: a lazily resolved child. A failed load is returned as the error of the Read / Seek that
+// needed it (never masked as EOF, never swallowed) and leaves the node unresolved so that a later
+// call tries again; a successful resolve requests exactly one block.
+//@ props C04 C05 C12
+
+//@ func (*file.deferredFileNode).resolve
+//@ ensures failure-leaves-it-unresolved: err != nil ==> d.lsys == old(d.lsys) && d.root == old(d.root) && d.LargeBytesNode == old(d.LargeBytesNode)
+//@ ensures load-failure-is-returned: (err == nil ==> loadFailed == old(loadFailed)) && (old(loadFailed) ==> loadFailed)
+//@ ensures at-most-one-request: old(loads) <= loads && loads <= old(loads) + 1
+//@ ensures resolved-means-no-request: old(d.lsys) == nil ==> loads == old(loads) && err == nil
+
+//@ func (*file.deferredReader).Read
+//@ ensures load-failure-is-returned: err == nil ==> loadFailed == old(loadFailed)
+//@ ensures stays-unresolved-on-error: old(d.ReadSeeker) == nil && d.ReadSeeker == nil ==> err != nil && result == 0
+
+//@ func (*file.deferredReader).Seek
+//@ ensures resolve-error-is-returned: old(d.ReadSeeker) == nil && d.ReadSeeker == nil ==> err != nil
+
+//@ func (*file.shardNodeReader).Read
+//@ domain well-sized: sizesOK(s.shardNodeFile) && sizesDeclared(s.shardNodeFile) && 0 <= s.offset && s.offset < (1 << 62)
+//@ ensures position-advances-by-the-count: s.offset == old(s.offset) + result && 0 <= result && result <= len(p)
+//@ ensures load-failure-is-returned: err == nil ==> loadFailed == old(loadFailed)
+//@ ensures make-reader-error-is-returned: old(s.rdr) == nil && s.rdr == nil ==> err != nil && result == 0
